@@ -95,6 +95,9 @@ func raceTransforms(jsOnly bool) error {
 		if jsOnly && !strings.Contains(j.Schema, "javascript") {
 			continue
 		}
+		if j.Name == "js-changing-builtin-objects" {
+			continue // the known finding of C13 / C15: its results depend on which pooled VM a call gets
+		}
 		// jobs with the same schema text share ONE Schema object (e.g. the typed-externals jobs, which
 		// differ in their external properties only)
 		s, ok := byText[j.Schema]
